@@ -9,6 +9,7 @@ import (
 	"io"
 	"math/rand"
 	"strings"
+	"sync"
 
 	"github.com/biogo/hts/cram"
 	"github.com/biogo/hts/cram/encoding/itf8"
@@ -52,9 +53,70 @@ func c20Plan(seed int64, tier string) []core.Case {
 		cs = append(cs, core.Case{Kind: "ltf8-random", Seed: core.SubSeed(seed, "l8r", i), P: map[string]int64{"n": 250000}})
 	}
 	for i := 0; i < ns; i++ {
-		cs = append(cs, core.Case{Kind: "cram-stream", Seed: core.SubSeed(seed, "cs", i)})
+		// every tenth also under the race detector: each child process starts
+		// with concurrent first uses of the codecs (see c20ColdStart)
+		cs = append(cs, core.Case{Kind: "cram-stream", Seed: core.SubSeed(seed, "cs", i), Race: i%10 == 0})
 	}
 	return cs
+}
+
+var (
+	c20Cold     sync.Once
+	c20ColdFail string
+)
+
+// c20ColdStart makes the very first uses of the codecs in this process come
+// from several goroutines at once (lazily built tables and the like must be
+// safe for that); it runs before the first case of every child process.
+func c20ColdStart() string {
+	c20Cold.Do(func() {
+		type iv struct {
+			b []byte
+			v int32
+		}
+		var ivs []iv
+		for _, v := range []int32{0, 1, 127, 128, 300, 16383, 16384, 1 << 21, 1<<28 - 1, 1 << 28, -1, -128} {
+			b, _ := oracle.ITF8Encode(v)
+			ivs = append(ivs, iv{b, v})
+		}
+		lvs := []int64{0, 127, 128, 1 << 14, 1 << 21, 1 << 28, 1 << 35, 1 << 42, 1 << 49, 1 << 56, -1}
+		var mu sync.Mutex
+		var wg sync.WaitGroup
+		start := make(chan struct{})
+		for g := 0; g < 8; g++ {
+			wg.Add(1)
+			go func(g int) {
+				defer wg.Done()
+				<-start
+				for k := range ivs {
+					x := ivs[(k+g)%len(ivs)]
+					if v, n, ok := itf8.Decode(x.b); !ok || n != len(x.b) || v != x.v {
+						mu.Lock()
+						c20ColdFail = fmt.Sprintf("itf8.Decode(% x) = (%d, %d, %v) in the first concurrent use of the process, want (%d, %d, true)", x.b, v, n, ok, x.v, len(x.b))
+						mu.Unlock()
+					}
+					var buf [5]byte
+					if n := itf8.Encode(buf[:], x.v); n != len(x.b) {
+						mu.Lock()
+						c20ColdFail = fmt.Sprintf("itf8.Encode(%d) wrote %d bytes in the first concurrent use of the process, want %d", x.v, n, len(x.b))
+						mu.Unlock()
+					}
+				}
+				for k := range lvs {
+					lv := lvs[(k+g)%len(lvs)]
+					e := oracle.LTF8Encode(lv)
+					if v, n, ok := ltf8.Decode(e); !ok || n != len(e) || v != lv {
+						mu.Lock()
+						c20ColdFail = fmt.Sprintf("ltf8.Decode(% x) = (%d, %d, %v) in the first concurrent use of the process, want (%d, %d, true)", e, v, n, ok, lv, len(e))
+						mu.Unlock()
+					}
+				}
+			}(g)
+		}
+		close(start)
+		wg.Wait()
+	})
+	return c20ColdFail
 }
 
 func c20CheckI(r *core.Result, v int32) {
@@ -193,6 +255,10 @@ func c20Run(c core.Case) *core.Result {
 	r.Nontrivial = true
 	r.FP = core.Hash(c.Kind, c.Seed, c.P)
 	rng := c.Rng()
+	if f := c20ColdStart(); f != "" {
+		r.Violate("cold-start|concurrent-first-use", "%s", f)
+		c20ColdFail = "" // reported once per process
+	}
 	switch c.Kind {
 	case "itf8-range":
 		lo, hi := c.Int64("lo"), c.Int64("hi")
